@@ -25,7 +25,8 @@ Inductive ckind :=
 | CGarbage (len seed : N)
 | CTrunc (c secret seed n : N).
 Record conn := { k_kind : ckind; k_fin : bool; k_validate : bool; k_connect_ok : bool; k_tout : N * N;
-                 k_tlate : N * N }.   (* a second block the target sends long after the handshake timeout *)
+                 k_tlate : N * N;     (* a second block the target sends long after the handshake timeout *)
+                 k_treset : bool }.   (* the target reads the whole upload, sends its output, then resets *)
 
 (* observation of one connection *)
 Record cobs := {
@@ -169,7 +170,8 @@ Fixpoint run_conns (e : env) (st : astate) (i : N) (cs : list conn) : list cobs 
   | c :: r =>
       let '(e', w) := wire_of e i (k_kind c) in
       let ci := {| ci_ip := 1; ci_bytes := w; ci_fin := k_fin c; ci_validate := k_validate c;
-                   ci_connect_ok := k_connect_ok c; ci_resolved := resolved_of (k_kind c); ci_target_out := gb (fst (k_tout c)) (snd (k_tout c)) ++ gb (fst (k_tlate c)) (snd (k_tlate c)) |} in
+                   ci_connect_ok := k_connect_ok c; ci_resolved := resolved_of (k_kind c); ci_target_out := gb (fst (k_tout c)) (snd (k_tout c)) ++ gb (fst (k_tlate c)) (snd (k_tlate c));
+                   ci_target_reset := k_treset c |} in
       let '(st', res) := handle e' st ci in
       match res with
       | Ok evs => obs_of (k_fin c) evs :: run_conns e' st' (i + 1) r
